@@ -92,11 +92,13 @@ package foreach
 //@   ensures [second-hand-over-refused] old(r.enabledInputAvailable) ==> result != nil && !sentnow(r.enabledInput)
 //@   ensures [first-hand-over-recorded] !old(r.enabledInputAvailable) ==> result == nil && r.enabledInputAvailable && sentnow(r.enabledInput)
 //@   ensures [enabled-iff-absent-or-true] !old(r.enabledInputAvailable) ==> lastsent(r.enabledInput) == (input["enabled"] == nil || input["enabled"] == any(true))
+//@   ensures [a-step-given-its-input-no-longer-reports-waiting] result == nil && r.currentStage == StageIDEnabling ==> r.currentState != step.RunningStepStateWaitingForInput
 //@   ensures [lock-invariant-kept] lockinv(r)
 //
 //@ func (*runningStep).ProvideStageInput
 //@   requires wfstep(r) && nolocks()
 //@   ensures [items-handed-over-in-order] sentnow(r.executeInput) ==> stage == "execute" && result == nil
+//@   site send#1 assert [a-step-given-its-items-no-longer-reports-waiting] r.currentStage == StageIDExecute ==> r.currentState != step.RunningStepStateWaitingForInput
 //
 //@ func (*runningStep).State
 //@   requires wfstep(r) && nolocks()
